@@ -2,6 +2,8 @@
 rendering of operations for the driver, execution on the real EoWriter / EoReader."""
 from __future__ import annotations
 
+import re
+
 from . import common
 from .common import cps, tohex
 
@@ -163,13 +165,34 @@ def reader_state(r) -> str:
     return f"pos {r.position} rem {r.remaining} chunked {1 if r.chunked_reading_mode else 0}"
 
 
-def rop_run(r, op) -> str:
+def rop_run(r, op, observe: bool = True) -> str:
+    """one reader operation and the state after it.  With observe=False the `remaining` property is NOT read (reading it
+    may itself change the reader: a lazily filled cache would be filled by the observer and hide what a client that
+    never asks would see); the answer then carries `rem *`, which `same()` treats as a wildcard."""
     try:
         v = rop_apply(r, op)
         head = "ok " + val_str(v)
     except Exception as ex:  # noqa: BLE001
         head = "err " + common.exc_class(ex)
-    return head + " " + reader_state(r)
+    if observe:
+        return head + " " + reader_state(r)
+    return head + f" pos {r.position} rem * chunked {1 if r.chunked_reading_mode else 0}"
+
+
+_REM = re.compile(r" rem -?\d+ ")
+
+
+def blind(ans: str) -> str:
+    """the answer of the model / documented reader with the `remaining` count masked"""
+    return _REM.sub(" rem * ", ans)
+
+
+def same(a: str, b: str) -> bool:
+    if a is None or b is None:
+        return a == b
+    if " rem * " in a:
+        return a == blind(b)
+    return a == b
 
 
 def validate_cp1252(ctx) -> bool:
